@@ -102,8 +102,9 @@ differ the tar writer fails and Pack returns an error. -/
 theorem C20_deref_header_body_may_differ :
     (pack c20fs "/".toList ⟨true, false, []⟩ "/t/lnk/src".toList).1.entries.getLast? =
       some ⟨"f".toList, tReg, 0o644, 0, [], "BB".toList⟩ ∧
-    c20fs.lstat "/t/x/g".toList = .ok (.file 0o644 0 "AA".toList) ∧
-    c20fs.stat "/t/lnk/src/f".toList = .ok (["u".toList, "x".toList, "g".toList], .file 0o600 5000000000 "BB".toList) := by
+    (c20fs.lstat "/t/x/g".toList).toOption = some (.file 0o644 0 "AA".toList) ∧
+    (c20fs.stat "/t/lnk/src/f".toList).toOption =
+      some (["u".toList, "x".toList, "g".toList], .file 0o600 5000000000 "BB".toList) := by
   decide
 
 end Slug
